@@ -83,8 +83,17 @@ func init() {
 		struct{}{}, cvStruct{1}, []int{1}, []string{"a"}, map[string]int{"a": 1}, map[int]any{}, ch,
 		(*int)(nil), &n, func() {}, complex(1, 2), [2]int{1, 2}, time.Month(3),
 		[]float64(nil), map[string]string(nil), &cvStruct{2},
+		// pointers (typed nil and non-nil) to types that DO have converters, and double pointers:
+		// unsupported, must be an error and never a panic
+		(*time.Duration)(nil), &cvDur, (*json.RawMessage)(nil), &cvRaw, (**utime.Time)(nil), (**utime.Location)(nil),
+		(*string)(nil), (*[]byte)(nil), (*[]any)(nil), (*map[string]any)(nil), (*bool)(nil), (*float64)(nil),
 	}
 }
+
+var (
+	cvDur = time.Duration(7)
+	cvRaw = json.RawMessage(`{"a":1}`)
+)
 
 func cvHexS(s string) string { return hex.EncodeToString([]byte(s)) }
 
